@@ -1457,10 +1457,146 @@ def entry_points_oracle(ctx, I, res, scale=1):
             for dom in pr.domains:
                 if not EP.applicable(entry, variant, dom):
                     continue
+                aliased = 0
                 for spec in entry_specs(I, dom, own or "NodeSliver", rng, n):
                     res.nontrivial.add(canon([entry, variant, dom, spec])[:300])
                     check_entry(I, entry, variant, own or "NodeSliver", dom, spec, res)
+                    if aliased < 2 * scale and spec_inside(I, dom, spec, own or "NodeSliver") is True:
+                        before = res.hist.get("alias:%s" % dom.split(":")[0], 0)
+                        check_alias(I, entry, variant, own or "NodeSliver", dom, spec, res)
+                        aliased += res.hist.get("alias:%s" % dom.split(":")[0], 0) > before
         res.count("entry-point:" + entry)
+
+# ---------------------------------------------------------------- accepted, then mutated through an alias
+# Every validated CONTAINER value (a tag list, a list-valued label field, a JSON blob built from a Python object) is handed to every
+# entry point built from a mutable object the caller keeps; after the entry point accepted it the caller changes ITS object in
+# place (append / item assignment / insert / extend / += / slice assignment with a NON-MEMBER) and the stored value is read, encoded
+# and decoded again.  A store that kept the caller's object now holds a value no check ever saw.
+
+LABEL_DOMS = ("labels", "peer_labels", "label_allocations", "labelsobj")
+FIELD_DOMS = ("labelfield", "peer_labelfield", "gatewayfield")
+BAD_TAG = "not a valid tag!\n"
+
+
+def _bad_label(f):
+    d = L.LABEL_DOMAIN.get(f)
+    for s in ("zz\n", "not a value", "-1", ""):
+        if d is not None and not d(s):
+            return s
+    return None
+
+
+def alias_value(I, dom, spec, entry, variant):
+    """-> (value for the entry point, the caller-side mutable object it was built from, the non-member to put there afterwards,
+    the API that object was handed to) or None when this (domain, form) has no caller-side mutable container"""
+    base = dom.split(":")[0]
+    form = spec.get("form", "obj")
+    if base == "tags" and form == "obj":
+        lst = [spec["s"], "second"]
+        return I.tg.Tags(lst), lst, BAD_TAG, "Tags.__init__"
+    if base == "tag" and entry == "Tags.__init__" and variant == "arg":
+        lst = [spec["s"], "second"]
+        return lst, lst, BAD_TAG, entry
+    if base in LABEL_DOMS + FIELD_DOMS:
+        f, v = spec["f"], spec["v"]
+        bad = _bad_label(f)
+        if bad is None or (base in LABEL_DOMS and form != "obj"):
+            return None
+        lst = list(v) if isinstance(v, list) else [good_example(f), v]
+        if base in FIELD_DOMS:
+            return (f, lst), lst, bad, entry
+        return I.cl.Labels(**{f: lst}), lst, bad, "Labels.__init__"
+    if base in ("json", "wjson", "rawjson", "blob") and not isinstance(spec["data"], str):
+        data = json.loads(json.dumps(spec["data"]))
+        cls = dom.split(":")[1]
+        grow = "a" * (L.JSON_MAX[cls] + 1)
+        if base in ("json", "wjson"):
+            if form != "obj":
+                return None
+            return getattr(I.jd, cls)(data), data, grow, cls + ".__init__"
+        return data, data, grow, entry
+    return None
+
+
+MUTATIONS = ["append", "setitem", "insert", "extend", "iadd", "slice"]
+
+
+def mutate_arg(arg, bad, how):
+    if isinstance(arg, dict):
+        arg["zz-" + how] = bad
+    elif how == "append":
+        arg.append(bad)
+    elif how == "setitem" and arg:
+        arg[0] = bad
+    elif how == "insert":
+        arg.insert(0, bad)
+    elif how == "extend":
+        arg.extend([bad])
+    elif how == "iadd":
+        arg += [bad]
+    else:
+        arg[len(arg):] = [bad]
+
+
+def _carries(dom, spec, raw, bad):
+    """does the stored text now carry the non-member the caller put into ITS object after the acceptance?"""
+    base = dom.split(":")[0]
+    if raw is None or raw == "":
+        return False
+    try:
+        if base in ("tags", "tag"):
+            return bad in json.loads(raw)
+        if base in LABEL_DOMS + FIELD_DOMS:
+            v = json.loads(raw).get(spec["f"])
+            return v == bad or (isinstance(v, list) and bad in v)
+    except (ValueError, TypeError, AttributeError):
+        return True
+    return False
+
+
+def check_alias(I, entry, variant, own, dom, spec, res):
+    """accepted-then-mutated-by-alias (see above) for one entry point x domain x member value"""
+    pr = EP.PROBES[entry]
+    if EP.overridden(entry, dom, spec) or spec_inside(I, dom, spec, own) is not True:
+        return
+    case = {"kind": "alias", "entry": entry, "variant": variant, "own": own, "dom": dom, "spec": spec}
+    try:
+        built = alias_value(I, dom, spec, entry, variant)
+    except Exception:
+        return
+    if built is None:
+        return
+    val, arg, bad, keeper = built
+    c = EP.C(I)
+    try:
+        ok, obj, ek = _accepts(lambda: pr.run(c, variant, dom, val))
+        if not ok:
+            return                # rejects-member is check_entry's business
+        raw0 = stored_of(I, obj, dom, spec)
+        if isinstance(raw0, tuple):
+            return
+        res.evaluations += 1
+        res.count("alias:%s" % dom.split(":")[0])
+        for how in MUTATIONS:
+            mutate_arg(arg, bad, how)
+            raw = stored_of(I, obj, dom, spec)
+            base = dom.split(":")[0]
+            sig = "C16:alias.%s.%s" % (keeper, "labels" if base in LABEL_DOMS + FIELD_DOMS else ("tags" if base in ("tag", "tags") else "json"))
+            case = dict(case, mutation=how)
+            if _carries(dom, spec, raw, bad) or (base in ("json", "wjson", "rawjson", "blob") and raw != raw0):
+                res.violation(sig + ":non-member-stored-after-accept",
+                              "%s keeps the caller's mutable argument: after the value was accepted%s the caller changed its own object (%s) "
+                              "and the stored value now holds a non-member that passed no check" % (
+                                  keeper, "" if keeper == entry else " (and handed to %s)" % entry, how),
+                              case, expected=repr(raw0)[:120], observed=repr(raw)[:120])
+                ok2, _, ek2 = _accepts(lambda: still_readable(I, obj, dom))
+                if not ok2:
+                    res.violation(sig + ":undecodable-after-accept", "... and what is stored can no longer be encoded and decoded (%s)" % ek2, case,
+                                  expected="readable", observed=ek2)
+                return
+    finally:
+        c.close()
+
 
 ELEM_ATTRS = ("tags", "boot_script", "user_data", "mf_data", "layout_data", "labels")
 
@@ -1525,6 +1661,8 @@ def run_oracle_case(I, c, res):
         check_label_keys(I, res)
     elif k == "entry":
         check_entry(I, c["entry"], c["variant"], c["own"], c["dom"], c["spec"], res)
+    elif k == "alias":
+        check_alias(I, c["entry"], c["variant"], c["own"], c["dom"], c["spec"], res)
     elif k == "ename":
         check_elem_name(I, c["elem"], c["s"], res)
     elif k == "eattr":
